@@ -377,6 +377,9 @@ pub fn c05(spec: &WorldSpec, ex: &Exec) -> Option<Viol> {
     let is_share = spec.op == Op::Share || matches!(spec.op, Op::Net(n) if n.starts_with("share("));
     let mut p_over = vec![false; np];
     let mut p_greeted = vec![false; np];
+    // share: the upstream subscription each probe is attached to (the one alive when it was greeted)
+    let mut attached_to: Vec<Option<u16>> = vec![None; np];
+    let mut sub_created_at: Vec<usize> = vec![usize::MAX; ns];
     let mut p_errs: Vec<Vec<u16>> = vec![vec![]; np];
     let mut p_term = vec![false; np];
     let mut self_ended = vec![false; ns];
@@ -385,7 +388,7 @@ pub fn c05(spec: &WorldSpec, ex: &Exec) -> Option<Viol> {
     // pending obligations: (send start idx, err id, probes that must get it)
     let mut open: Vec<(usize, u16, Vec<u8>, u16)> = vec![];
     // obligations to verify at the end of the top-level event: (err id, probes, failing sub)
-    let mut at_quiescence: Vec<(u16, Vec<u8>, u16)> = vec![];
+    let mut at_quiescence: Vec<(u16, Vec<u8>, u16, usize)> = vec![];
     let mut settled: Vec<(u16, Vec<u8>)> = vec![];
     let mut found: Option<Viol> = None;
     let q = quiescent_points(ex);
@@ -396,10 +399,11 @@ pub fn c05(spec: &WorldSpec, ex: &Exec) -> Option<Viol> {
         }
         while qi < q.len() && q[qi] <= i {
             if q[qi] == i {
-                for (id, probes, fs) in at_quiescence.drain(..) {
-                    // remaining live upstreams of those probes are disposed
+                for (id, probes, fs, send_at) in at_quiescence.drain(..) {
+                    // remaining live upstreams of those probes are disposed (subscriptions started
+                    // after the failure began belong to a later life of the output)
                     for s in 0..ns {
-                        if s as u16 == fs || !greeted[s] || self_ended[s] || stops[s] > 0 {
+                        if s as u16 == fs || !greeted[s] || self_ended[s] || stops[s] > 0 || sub_created_at[s] > send_at {
                             continue;
                         }
                         let belongs = if is_share { true } else { own[s].map(|p| probes.contains(&p)).unwrap_or(false) };
@@ -417,7 +421,11 @@ pub fn c05(spec: &WorldSpec, ex: &Exec) -> Option<Viol> {
             Ev::In(Actor::Probe(p), m) => {
                 let pu = *p as usize;
                 match m {
-                    M::Hs => p_greeted[pu] = true,
+                    M::Hs => {
+                        p_greeted[pu] = true;
+                        // newest upstream subscription that has not ended by itself
+                        attached_to[pu] = (0..ns).rev().find(|s| sub_created_at[*s] != usize::MAX && !self_ended[*s]).map(|s| s as u16);
+                    },
                     M::Err(id) => {
                         p_over[pu] = true;
                         p_errs[pu].push(*id);
@@ -446,7 +454,9 @@ pub fn c05(spec: &WorldSpec, ex: &Exec) -> Option<Viol> {
                 }
                 if let M::Err(id) = m {
                     // which probes must receive it: live ones at this moment
-                    let probes: Vec<u8> = if is_share {
+                    let probes: Vec<u8> = if is_share && spec.op == Op::Share {
+                        (0..np as u8).filter(|p| p_greeted[*p as usize] && !p_over[*p as usize] && attached_to[*p as usize] == Some(*s)).collect()
+                    } else if is_share {
                         (0..np as u8).filter(|p| p_greeted[*p as usize] && !p_over[*p as usize]).collect()
                     } else {
                         match own[su] {
@@ -457,6 +467,7 @@ pub fn c05(spec: &WorldSpec, ex: &Exec) -> Option<Viol> {
                     open.push((i, *id, probes, *s));
                 }
             },
+            Ev::In(Actor::Sub(s), M::Hs) => sub_created_at[*s as usize] = i,
             Ev::In(Actor::Sub(s), m) if m.is_terminal() => stops[*s as usize] += 1,
             Ev::Ret(Actor::Sub(_)) => {
                 if let Some(fr) = stack.last() {
@@ -497,7 +508,7 @@ pub fn c05(spec: &WorldSpec, ex: &Exec) -> Option<Viol> {
                             must.push(p);
                         }
                         if !must.is_empty() {
-                            at_quiescence.push((id, must.clone(), fs));
+                            at_quiescence.push((id, must.clone(), fs, fr.start));
                             settled.push((id, must));
                         }
                     }
@@ -507,9 +518,9 @@ pub fn c05(spec: &WorldSpec, ex: &Exec) -> Option<Viol> {
         }
     });
     if found.is_none() && q.last() == Some(&ex.trace.len()) {
-        for (id, probes, fs) in at_quiescence.drain(..) {
+        for (id, probes, fs, send_at) in at_quiescence.drain(..) {
             for s in 0..ns {
-                if s as u16 == fs || !greeted[s] || self_ended[s] || stops[s] > 0 {
+                if s as u16 == fs || !greeted[s] || self_ended[s] || stops[s] > 0 || sub_created_at[s] > send_at {
                     continue;
                 }
                 let belongs = if is_share { true } else { own[s].map(|p| probes.contains(&p)).unwrap_or(false) };
